@@ -174,6 +174,11 @@ type c19Case struct {
 	ignNodes   []int
 	ignPairs   [][2]int
 	bw         map[uint64]uint64
+	// link is the state of the switch's link of an own channel as the real
+	// bandwidth manager sees it (via == "route" only): 0 = up (Bandwidth() =
+	// bw[id]), 1 = link not eligible to forward, 2 = MayAddOutgoingHtlc
+	// fails, 3 = the switch has no such link.
+	link       map[uint64]int
 	defaultCfg bool
 	probSalt   int // 0: constant 1; >0: a fixed table; <0: distinct per pair
 	metaLen    int // length of the payment metadata for the final hop
@@ -236,6 +241,10 @@ func (cs *c19Case) clone() *c19Case {
 	c.bw = make(map[uint64]uint64, len(cs.bw))
 	for k, v := range cs.bw {
 		c.bw[k] = v
+	}
+	c.link = make(map[uint64]int, len(cs.link))
+	for k, v := range cs.link {
+		c.link[k] = v
 	}
 	return &c
 }
@@ -1063,7 +1072,16 @@ func (c *c19) run(cs *c19Case, g Graph, sess GraphSessionFactory,
 		bwIDs = append(bwIDs, id)
 	}
 	sort.Slice(bwIDs, func(i, j int) bool { return bwIDs[i] < bwIDs[j] })
+	linkNames := []string{"up", "ineligible", "cannotadd", "nolink"}
 	for _, id := range bwIDs {
+		if cs.via == "route" {
+			// ground truth for the bandwidth manager: the link's state
+			// and its Bandwidth(); the driver derives the hint with the
+			// model of availableChanBandwidth.
+			c.pf("link %d %s %d", id, linkNames[cs.link[id]], cs.bw[id])
+
+			continue
+		}
 		c.pf("bw %d %d", id, cs.bw[id])
 	}
 	for _, d := range cs.droppedInb {
@@ -1072,6 +1090,11 @@ func (c *c19) run(cs *c19Case, g Graph, sess GraphSessionFactory,
 
 	hints := &mockBandwidthHints{hints: map[uint64]lnwire.MilliSatoshi{}}
 	for id, v := range cs.bw {
+		if cs.via == "route" && cs.link[id] != 0 {
+			// (only used by the second search that recovers FindRoute's
+			// edge list.)
+			v = 0
+		}
 		hints.hints[id] = lnwire.MilliSatoshi(v)
 	}
 	ignN := make(map[route.Vertex]struct{})
@@ -1215,9 +1238,10 @@ func (c *c19) run(cs *c19Case, g Graph, sess GraphSessionFactory,
 
 	res := &c19Result{}
 	var (
-		ferr   error
-		rerr   error
-		status = "ok"
+		ferr     error
+		rerr     error
+		status   = "ok"
+		sessGlue string
 	)
 	func() {
 		defer func() {
@@ -1266,13 +1290,19 @@ func (c *c19) run(cs *c19Case, g Graph, sess GraphSessionFactory,
 					htlcswitch.ChannelLink, error) {
 
 					bw, ok := cs.bw[id.ToUint64()]
-					if !ok || bw == 0 {
+					st := cs.link[id.ToUint64()]
+					if !ok || st == 3 {
 						return nil, errors.New("no link")
 					}
+					l := &mockLink{
+						bandwidth:  lnwire.MilliSatoshi(bw),
+						ineligible: st == 1,
+					}
+					if st == 2 {
+						l.mayAddOutgoingErr = errors.New("cannot add")
+					}
 
-					return &mockLink{
-						bandwidth: lnwire.MilliSatoshi(bw),
-					}, nil
+					return l, nil
 				},
 				Chain:             newMockChain(cs.height),
 				PathFindingConfig: cfg,
@@ -1358,6 +1388,14 @@ func (c *c19) run(cs *c19Case, g Graph, sess GraphSessionFactory,
 					[]*unifiedEdge, float64, error) {
 
 					relaxLog, storedLog = nil, nil
+					// what RequestRoute derived from the payment: the
+					// restrictions and the final expiry the search
+					// is run with (compared with the model of the
+					// glue on every run).
+					sessGlue = fmt.Sprintf("restr_cltv=%d restr_fee=%d "+
+						"final_expiry=%d amt=%d", r.CltvLimit,
+						uint64(r.FeeLimit), finalHtlcExpiry,
+						uint64(amt))
 					p, pr, err := findPath(g, r, cfg, self, source,
 						target, amt, timePref, finalHtlcExpiry)
 					res.path = p
@@ -1382,6 +1420,20 @@ func (c *c19) run(cs *c19Case, g Graph, sess GraphSessionFactory,
 		}
 	}()
 
+	if cs.via == "sess" && sessGlue != "" {
+		// LightningPayment as the caller filled it in, ValidateCLTVLimit's
+		// verdict on it (the RPC layer's guard), and what RequestRoute made
+		// of it.
+		payCltv := cs.cltvLimit + uint32(cs.finalDelta)
+		payFinal := cs.finalDelta - BlockPadding
+		valid := 0
+		if ValidateCLTVLimit(payCltv, payFinal, true) == nil {
+			valid = 1
+		}
+		c.pf("sess pay_cltv=%d pay_final=%d height=%d pay_fee=%d "+
+			"pay_amt=%d validate=%d => %s", payCltv, payFinal, cs.height,
+			cs.feeLimit, cs.amt, valid, sessGlue)
+	}
 	// The whole search as the real findPath performed it (in-memory graphs,
 	// whose channel iteration order the driver knows): attempt cost, minimum
 	// probability, payload size of the final hop from the real
@@ -1638,6 +1690,16 @@ func (c *c19) derive(cs *c19Case, rt *route.Route, chanMut bool) *c19Case {
 		}
 	case 4:
 		d.bw[rt.Hops[0].ChannelID] = carried[0] - uint64(r.Intn(2))
+		if d.via == "route" && froms[0] == d.self && r.Intn(3) == 0 {
+			// the link of the channel the route leaves over changes its
+			// state (goes down in one of the three ways / comes back)
+			// while its bandwidth stays sufficient.
+			if d.link == nil {
+				d.link = map[uint64]int{}
+			}
+			d.bw[rt.Hops[0].ChannelID] = carried[0] + uint64(r.Intn(2))
+			d.link[rt.Hops[0].ChannelID] = r.Intn(4)
+		}
 	case 5:
 		if nh > 1 {
 			d.ignNodes = append(d.ignNodes, tos[r.Intn(nh-1)])
@@ -1991,6 +2053,15 @@ func TestVerifC19(t *testing.T) {
 					}
 					if _, ok := cs.bw[ch.id]; !ok {
 						cs.bw[ch.id] = c.pick(0, 1<<41, 1<<41)
+					}
+					if _, ok := cs.link[ch.id]; !ok {
+						if cs.link == nil {
+							cs.link = map[uint64]int{}
+						}
+						cs.link[ch.id] = 0
+						if c.chance(0.18) {
+							cs.link[ch.id] = 1 + c.rng.Intn(3)
+						}
 					}
 				}
 			}
